@@ -263,7 +263,7 @@ pub fn run_all(ctx: &mut Ctx, replay: Option<&Path>) {
     ctx.random(
         &a,
         (-50.0f64..50.0, prop_oneof![Just(0.0), -5.0f64..0.0, 0.0f64..8.0], prop_oneof![Just(1e-6), Just(0.5), Just(1.0), Just(3.0), 0.01f64..20.0], any::<u64>(), 0u8..3).prop_map(move |(fc, d, t, seed, below)| AcceptCase { f_current: Fb::of(fc), f_candidate: Fb::of(fc + d), t: Fb::of(t), n: 600, seed, below }),
-        ctx.tier.pick(300, 3000),
+        ctx.tier.pick(800, 4000),
     );
     let mut misc = Vec::new();
     for d in [0.1, 1.0, 5.0] {
